@@ -82,3 +82,33 @@ func init() {
 		Assumptions: append(append([]string{}, envAssumptions...), commonAssumptions[0], commonAssumptions[3]),
 		Stubs:       []string{"os.*, exec.Command, ioutil.*, filepath.Walk, json, time.Now, log, randSeqLC"}})
 }
+
+func init() {
+	ma10 := []string{"C10.every-output-has-a-record", "C10.merge.command", "C10.merge.upstream-tags-present", "C10.fin.upstream-is-the-producers-record", "C10.recorded-command-is-executed-command", "C10.merge.duration"}
+	regCheck(&Check{ID: "C10",
+		Quick: []H{{Pkg: "components", Fn: "VxH10", MustReach: []string{"ran"}, MustAssert: ma10},
+			{Pkg: "components", Fn: "VxH10kill", Params: p("N", 70), MustReach: []string{"killed"}, MustAssert: []string{"C10.finalized-output-always-has-its-record"}}},
+		Bounds: map[string]string{
+			"workflow":  "two FileSources -> two MapToTags (different tags) -> two-input, two-output command process with a parameter -> final command process, run by the real Workflow.Run",
+			"clock":     "time.Now returns fresh symbolic non-decreasing instants: the timing clauses (start <= finish, duration = finish - start >= 0) are decided for every clock behaviour",
+			"map order": "symbolic iteration order in writeAuditLogs, createTasks and AddTags",
+		},
+		Outside:     []string{"symbolic parameter / tag values (they enter the temp-dir hash and thereby the command string, which the command model needs concrete)", "byte-level JSON formatting (encoding/json is modelled as a snapshot)", "joined sub-stream members (C18 checks the member list the audit code iterates over)"},
+		Assumptions: append(append([]string{}, envAssumptions...), commonAssumptions[0], commonAssumptions[3]),
+		Stubs:       []string{"os.*, exec.Command, ioutil.*, filepath.Walk, encoding/json (snapshot), time.Now (symbolic clock), log, randSeqLC"}})
+	ma11 := []string{"C11.resumed-run-completes", "C11.ancestor-record-identical-to-disk", "C11.lineage.command", "C11.tags-survive", "C11.upstream-not-recomputed"}
+	regCheck(&Check{ID: "C11",
+		Quick: []H{
+			{Pkg: "components", Fn: "VxH11", Params: p("mode", 0), MustReach: []string{"resumed"}, MustAssert: ma11},
+			{Pkg: "components", Fn: "VxH11", Params: p("mode", 1), MustReach: []string{"resumed"}, MustAssert: ma11},
+			{Pkg: "components", Fn: "VxH11", Params: p("mode", 2, "N", 70), MustReach: []string{"resumed"}, MustAssert: ma11},
+			{Pkg: "components", Fn: "VxH11", Params: p("mode", 3), MustReach: []string{"resumed"}, MustAssert: ma11},
+		},
+		Bounds: map[string]string{
+			"histories": "(3) four runs inside one program with outputs deleted in between (run; delete f; run; delete m, side, f; run; delete f; run); (0) RunTo(merge) then a new full run, (1) full run, delete the final output, run again, (2) run killed at a symbolic point before any file-system effect (0..70), temp dirs removed, run again",
+			"workflow":  "the C10 workflow; every run uses freshly built workflow objects; records are read back with UnmarshalAuditInfoJSONFile",
+		},
+		Outside:     []string{"encoding/json itself (snapshot model; side condition: all AuditInfo fields are exported)", "several restarts in a row (C03)"},
+		Assumptions: append(append([]string{}, envAssumptions...), commonAssumptions[0], commonAssumptions[3]),
+		Stubs:       []string{"os.*, exec.Command, ioutil.*, filepath.Walk, encoding/json (snapshot), time.Now, log, randSeqLC"}})
+}
